@@ -1421,6 +1421,8 @@ class Executor:
             return VCallable("builtins." + node.value.id)  # generic alias such as frozenset[T]
         o = self.eval(node.value)
         st = self.st
+        if isinstance(node.slice, ast.Slice) and node.slice.lower is None and node.slice.upper is None and node.slice.step is None and isinstance(o, VList):
+            return VList(o.t, o.et)  # xs[:] : a new list object with the same elements
         if isinstance(o, VRef) and st.obj(o.ref)["kind"] == "rec":
             k = self.eval(node.slice)
             if not (isinstance(k, VStr) and k.const is not None):
